@@ -19,7 +19,6 @@ def mkD (code : Nat) (labels : List SrcRange) : Diag := { code := code, labels :
 
 inductive APanic
   | e17TagUnwrap        -- analyzer.rs:1064 (unreachable through the parser)
-  | e21ValueUnwrap      -- analyzer.rs:1140: constraint with a tag on a struct/custom typedef field
   | constraintOnFlag    -- analyzer.rs:1154: constraint on a field that `desugar_flags` turned into Flag
   | inlineValueUnwrap   -- inline_groups: constraint value / tag unwrap
   | desugarIdUnwrap     -- desugar_flags: `field.id().unwrap()` on an optional field without id
@@ -397,10 +396,9 @@ def checkConstraint (f : File) (c : Constraint) (decl : Decl) : List Diag × Opt
                | none => ([(mkD 20 [c.loc, fl.loc])], none)
                | some (.range ..) => ([(mkD 42 [c.loc, fl.loc])], none)
                | some _ => ([], none)))
-         | _ =>
-           (match c.value with
-            | some _ => ([(mkD 21 [c.loc, fl.loc])], none)
-            | none => ([], some .e21ValueUnwrap)))
+         -- (since the `fix:` commit "report E21 instead of panicking when a tag constraint names a
+         -- struct or custom typed field": the message no longer unwraps `constraint.value`)
+         | _ => ([(mkD 21 [c.loc, fl.loc])], none))
     | _ => ([], some .constraintOnFlag)
 
 def checkConstraintsList (f : File) (cs : List Constraint) (decl : Decl) (byId : List (String × Constraint)) :
